@@ -916,6 +916,33 @@ func c09Fallback(w *World, r *Report, read *ssa.Function) {
 	for _, ret := range bad {
 		r.Fail("C09-g", fname, "success only from primary or backup read", w.relFile(instrPos(ret)), "a success return is reachable without a successful primary read or a backup read")
 	}
+	// a backup that validated is handed out: behind the nil-error edge of the backup read no error return is reachable
+	// (the atomicity argument needs the reader to take the new list from the complete backup whenever the primary is
+	// torn, whatever else the two copies differ in)
+	if biff, bnil := errNilEdge(read, backup); biff != nil {
+		seenB := map[*ssa.BasicBlock]bool{}
+		stB := []*ssa.BasicBlock{biff.Block().Succs[bnil]}
+		rejected := ""
+		for len(stB) > 0 {
+			b := stB[len(stB)-1]
+			stB = stB[:len(stB)-1]
+			if seenB[b] {
+				continue
+			}
+			seenB[b] = true
+			if ret, ok := lastInstr(b).(*ssa.Return); ok {
+				if classifyReturn(ret) == RetError {
+					rejected = w.relFile(instrPos(ret))
+				}
+				continue
+			}
+			stB = append(stB, b.Succs...)
+		}
+		r.Check(rejected == "", "C09-g", fname, "a validated backup is returned", w.relFile(backup.Pos()), "",
+			"after the backup read succeeded (header CRC, entries CRC and self-LBA valid) gpt.Read can still return an error at "+rejected+": a crash that leaves the primary torn and the backup complete then reads as an error instead of the new (or old) table")
+	} else {
+		r.Undecided("C09-g", fname, "a validated backup is returned", w.relFile(backup.Pos()), "the error of the backup read is not tested in gpt.Read")
+	}
 	// the backup call is reached on the errors.As-true edge, not on the false edge
 	tb := asIf.Block().Succs[asTrue]
 	reachB := blockReaches(tb, backup.Block())
